@@ -29,7 +29,8 @@ def h64(x):
 
 class Recorder:
     MAX_SAMPLES = 3
-    MAX_VIOL = 40
+    MAX_PER_SIG = 6
+    MAX_SIGS = 80
     MAX_SET = 400
 
     def __init__(self, prop, shard):
@@ -43,6 +44,7 @@ class Recorder:
         self.sets = collections.defaultdict(set)
         self.violations = []
         self.n_violations = 0
+        self._sig_count = collections.Counter()
         self.inconclusive = []
         self.side = []
         self.t0 = time.time()
@@ -76,7 +78,10 @@ class Recorder:
     def violation(self, what, features=None, witness=None, case=None):
         """A refutation of the property. `features` = mechanism features for the known-findings classifier."""
         self.n_violations += 1
-        if len(self.violations) < self.MAX_VIOL:
+        sig = json.dumps(jsonable(features or {}), sort_keys=True)
+        self._sig_count[sig] += 1
+        # cap per mechanism signature, so that a frequent (possibly known) mechanism never crowds out a rare one
+        if self._sig_count[sig] <= self.MAX_PER_SIG and len(self._sig_count) <= self.MAX_SIGS:
             self.violations.append({'what': str(what)[:600], 'features': jsonable(features or {}),
                                     'witness': jsonable(witness), 'case': jsonable(case)})
 
